@@ -75,6 +75,14 @@ type dockerTransport struct {
 
 // NewTransport creates a new Docker transport using the specified parameters.
 func NewTransport(container, user string, environment, parameters map[string]string, prompter string) (agent.Transport, error) {
+	// Verify that the container name couldn't be mistaken for a command line
+	// option by the Docker command, which receives it as a positional argument.
+	// The user name is always passed as the value of a flag, so it doesn't need
+	// the same restriction.
+	if len(container) > 0 && container[0] == '-' {
+		return nil, errors.New("container name begins with '-'")
+	}
+
 	// Convert URL parameters to top-level daemon connection flags.
 	daemonConnectionFlags, err := docker.LoadDaemonConnectionFlagsFromURLParameters(parameters)
 	if err != nil {
